@@ -14,6 +14,9 @@ import traceback
 
 from .paths import VERIF, REPO, LEAN, EVIDENCE, REPLAYS, CORPUS
 
+if hasattr(sys, 'set_int_max_str_digits'):
+    sys.set_int_max_str_digits(0)      # a broken library may hand back huge ints; printing them must not crash the harness
+
 ALLOWED_AXIOMS = {'propext', 'Classical.choice', 'Quot.sound'}
 FORBIDDEN_SRC = re.compile(r'\b(sorry|admit|native_decide|bv_decide|implemented_by|unsafe)\b|^\s*axiom\s|maxHeartbeats\s+0')
 TONMODEL = os.path.join(LEAN, '.lake/build/bin/tonmodel')
@@ -290,7 +293,10 @@ def _execute(ctx, mod, prop, replay):
     except MachineryError:
         raise
     except Exception:
-        raise MachineryError('harness crashed:\n' + traceback.format_exc())
+        if not ctx.failures:
+            raise MachineryError('harness crashed:\n' + traceback.format_exc())
+        # the harness tripped over a library that already misbehaves: report the failing inputs found so far
+        ctx.notes.append('harness aborted after recording failures: ' + traceback.format_exc()[-400:])
 
 
 def run_check(prop, tier, seed, replay=None):
